@@ -1,0 +1,21 @@
+//go:build !verif
+
+// Package simhook holds the seams used by the deterministic-simulation
+// harness in /verif. Without the `verif` build tag every function here is an
+// empty, inlinable no-op, so the shipped binary is unchanged.
+package simhook
+
+import (
+	"io"
+	"os"
+)
+
+// Yield marks a point where the simulator may park the calling goroutine.
+func Yield(site string, id int64) {}
+
+// WrapFile lets the simulator interpose a simulated disk on a local file.
+// A nil result means "use the file as is".
+func WrapFile(path string, f *os.File) io.Reader { return nil }
+
+// CrashPoint marks a filesystem step at which the simulator may kill the process.
+func CrashPoint(name string) {}
